@@ -84,6 +84,8 @@ def build_bam(rng, sim, tmp, opts):
             a.mapping_quality = rng.choice([0, 5, 19])
         if opts.get("bx") and rng.random() < 0.7:
             a.set_tag("BX", "BC%d" % rng.randint(1, 6))
+        if opts.get("rg_less") and rng.random() < 0.05:
+            a.set_tag("RG", None)  # a read that belongs to no read group (legal SAM): no sample, so it cannot be tagged
         out_recs.append(a)
         r = rng.random()
         if r < 0.06:
@@ -269,6 +271,7 @@ def run_one(rng, counters):
             doc, blocks = genome.truth_phased_doc_poly(sim, rng, block_len=(3, 9))
         vcf = os.path.join(tmp, "phased.vcf.gz")
         doc.write(vcf, compress=True)
+        opts["rg_less"] = rng.random() < 0.3
         bam = build_bam(rng, sim, tmp, opts)
         if nsamp == 1 and rng.random() < 0.25:
             opts["ignore_read_groups"] = True
@@ -348,8 +351,10 @@ def run_one(rng, counters):
             by_name[(chrom, sample, name)] = (sample, vars_, bx)
 
         def sample_of(a):
-            if opts.get("ignore_read_groups") or not a.has_tag("RG"):
+            if opts.get("ignore_read_groups"):
                 return targets[0] if len(targets) == 1 else None
+            if not a.has_tag("RG"):
+                return None  # belongs to no sample
             return a.get_tag("RG")[3:]
 
         nontrivial = False
@@ -397,8 +402,8 @@ def run_one(rng, counters):
             t = tags_of(a)
             ignore = a.is_unmapped or a.is_secondary or (a.is_supplementary and not opts["tag_supplementary"])
             if ignore:
-                if t is not None and chrom is not None:
-                    viol.append({"mech": "tag-on-ignored-alignment", "msg": "%s flag %d carries tags %r" % (a.query_name, a.flag, t)})
+                if t is not None:
+                    viol.append({"mech": "tag-on-ignored-alignment" + (":unplaced" if chrom is None else ""), "msg": "%s flag %d carries tags %r" % (a.query_name, a.flag, t)})
                 continue
             if linked:
                 exp = cloud_expect.get((chrom, sample_of(a)))
